@@ -2,8 +2,8 @@ package main
 
 import (
 	_ "embed"
-	"go/constant"
 	"fmt"
+	"go/constant"
 	"go/types"
 	"reflect"
 	"sort"
